@@ -70,6 +70,22 @@ def _run(vec, mode):
                     r = x.copy()
                 elif o == "neg":
                     r = -x
+                elif o == "zero_plus":
+                    r = (0 if i % 2 else 0.0) + x
+                elif o == "plus_zero":
+                    r = x + (0 if i % 2 else 0.0)
+                elif o == "one_times":
+                    r = (1 if i % 2 else 1.0) * x
+                elif o == "times_one":
+                    r = x * (1 if i % 2 else 1.0)
+                elif o == "div_one":
+                    r = x / (1 if i % 2 else 1.0)
+                elif o == "minus_zero":
+                    r = x - (0 if i % 2 else 0.0)
+                elif o == "pow_one":
+                    r = x ** 1
+                elif o == "sum_list":
+                    r = sum([x])
                 elif o == "full_like":
                     r = FlodymArray.full_like(x, 7.0)
                 elif o == "cast_to":
@@ -155,7 +171,8 @@ def _run(vec, mode):
                 tag = "{" + ptag + ",C04}"
                 what = f"register {r} (written)"
             else:
-                tag = "{C15}"
+                # an assignment that reaches an array it does not address breaks C05's "no entry outside the addressed region"
+                tag = "{C15,C05}" if op.startswith("assign") else "{C15}"
                 what = f"register {r} (not an output of this call)"
             dp = U.check_dims(a.dims, expected_json(e)["dims"], what)
             if dp:      # the register's dimension set itself differs (e.g. edited through an object shared with another array)
